@@ -417,6 +417,11 @@ var firstCallShapes = []struct {
 	{"handler-returns-early-rendezvous", "sssshR", "rs", true},
 	{"handler-returns-early-no-answer-rendezvous", "ssshR", "r", true},
 	{"handler-returns-early-buffered", "sssshR", "rs", false},
+	// a unary call whose request the client's own encoder rejects: the stream exists already, nothing but its close reaches the server
+	{"unary-request-fails-to-marshal", "!", "rs", false},
+	// the receiving side of the client goes through the raw entry point
+	{"raw-receive-until-end", "shV", "rsss", false},
+	{"raw-receive-handler-error", "shV", "rs!", false},
 }
 
 func firstCalls(id string, seed uint64, shape int) runner.Result {
@@ -444,7 +449,13 @@ func firstCalls(id string, seed uint64, shape int) runner.Result {
 	for i := 0; i < r.Intn(2); i++ {
 		scripts = append(scripts, prog.GenClean(r, uint64(i+1), cfg))
 	}
-	s := &prog.Script{Tag: uint64(len(scripts) + 1), Client: acts(sh.client), Handler: acts(sh.handler)}
+	s := &prog.Script{Tag: uint64(len(scripts) + 1), Client: acts(sh.client), Handler: acts(strings.TrimSuffix(sh.handler, "!"))}
+	if strings.HasSuffix(sh.handler, "!") {
+		s.Ret = &prog.ErrSpec{Code: 7}
+	}
+	if sh.client == "!" {
+		s.Unary, s.BadReq, s.Client, s.ReqSize = true, true, nil, 10
+	}
 	scripts = append(scripts, s)
 	x := prog.New(cfg, scripts)
 	defer x.Rig.Teardown()
@@ -461,7 +472,7 @@ func firstCalls(id string, seed uint64, shape int) runner.Result {
 	if st != "ready" {
 		return runner.Violation(id, key+":rpc-never-completes", "the newly issued RPC did not complete although both programs end by themselves (connection closed="+fmt.Sprint(closed)+")\nprogram: "+hist+"\nblocked goroutines in drpc:\n"+census.Dump(census.InDRPC(snap)))
 	}
-	if !closed && !l.HandlerRan {
+	if !closed && !l.HandlerRan && !s.BadReq {
 		return runner.Violation(id, key+":handler-never-ran", "the client's calls returned but the RPC never reached its handler\nprogram: "+hist)
 	}
 	verdict, _ := x.Probe(1000)
